@@ -316,7 +316,7 @@ def negatesMin : Prim α → Bool
 
 /-! ### casts (`TransformError::WrongArgument` is the only failure) -/
 
-inductive CastErr where | wrongArgument
+inductive CastErr where | wrongArgument | doesNotFit
   deriving Repr, DecidableEq
 
 /-- `10_f64.powi(-5)` -/
@@ -336,13 +336,19 @@ def asNumberCast : Prim α → Except CastErr α
   | .boolean b => .ok (boolF b)
   | _ => .error .wrongArgument
 
-/-- `as_integer_cast` -/
+/-- `as_integer_cast` (since /repo 2f900bf: `i64::try_from(n)` for a `PositiveInteger`, a value from 2^63 on is
+the error `Other: the value … does not fit a signed 64 bit integer`, not a wrapped negative number) -/
 def asIntegerCast : Prim α → Except CastErr Int
   | .integer n => .ok n
-  | .pint n => .ok (u64AsI64 n)
+  | .pint n => if n < 9223372036854775808 then .ok (n : Int) else .error .doesNotFit
   | .boolean b => .ok (boolI b)
   | .number n => if floatNe (fract n) (ofInt 0) then .error .wrongArgument else .ok (toI64 n)
   | _ => .error .wrongArgument
+
+/-- the cast BEFORE 2f900bf (`*n as i64`): kept as the regression reference -/
+def asIntegerCastWrap : Prim α → Except CastErr Int
+  | .pint n => .ok (u64AsI64 n)
+  | p => asIntegerCast p
 
 /-- `as_usize_cast` (64-bit target: `usize` = `u64`) -/
 def asUsizeCast [ToU64 α] : Prim α → Except CastErr Nat
